@@ -449,8 +449,17 @@ class SchemaGen:
 
     def field_type(self, depth: int, scope: Optional[MsgDef]) -> Any:
         r = self.rng
-        if r.random() < 0.3:
+        k = r.random()
+        if k < 0.1 and self.o.allow_alias:
+            # two-dimensional: an array whose elements are an alias of an array (rows of sub-byte elements, extensible
+            # rows, rows of messages ...)
+            rows = [a for a in self.usable(AliasDef) if isinstance(a.type, TArray)]
+            if rows:
+                return TArray(TRef(r.choice(rows)), r.choice([2, 3, 4]), self.o.allow_ext and r.random() < self.o.ext_prob)
+        if k < 0.36:
             e = self.elem_type(depth, scope)
+            if isinstance(e, (TUint, TInt)) and r.random() < 0.35:
+                e = type(e)(r.choice([8, 16, 32, 64]))  # the C runtime's batch path
             return TArray(e, self.cap(), self.o.allow_ext and r.random() < self.o.ext_prob)
         return self.elem_type(depth, scope)
 
@@ -462,8 +471,11 @@ class SchemaGen:
             n = r.choice([d for d in (1, 2, 4, 8, 16) if d < w and w // d <= 64])
             e = TBool() if n == 1 and r.random() < 0.5 else (TUint(n) if r.random() < 0.6 else TInt(n))
             return AliasDef(self.fresh("Al"), TArray(e, w // n, False), parent)
-        if r.random() < 0.4:
+        if r.random() < 0.45:
             e = self.elem_type(0, parent)
+            msgs = self.usable(MsgDef)
+            if msgs and self.o.allow_msg and r.random() < 0.25:
+                e = TRef(r.choice(msgs))  # rows of messages
             # alias element must not itself be an alias-to-array inside array? allowed by the
             # compiler (2d array through alias); keep it.
             t = TArray(e, self.cap(), self.o.allow_ext and r.random() < self.o.ext_prob)
@@ -494,9 +506,17 @@ class SchemaGen:
         for i, num in enumerate(nums):
             ft = self.field_type(depth, m)
             m.fields.append(Field(f"f{chr(97 + i % 26)}_{num}", num, ft))
+        free = [k for k in range(1, 256) if k not in set(nums)]
+        if m.ext and r.random() < 0.15 and free:
+            # a bulky extensible message: its size prefix then exceeds a byte (and, at an odd offset, spans three bytes)
+            m.fields.append(Field("bulk_x", free.pop(r.randrange(len(free))), TArray(TUint(32), r.choice([16, 20, 40]), False)))
+        if r.random() < 0.1 and free and max(free) > max(nums, default=0):
+            # the LAST member of the struct is a batch-copied array whose total size is not a power of two
+            e, c = r.choice([(TByte(), 3), (TInt(8), 5), (TInt(8), 6), (TUint(8), 7), (TUint(16), 3), (TInt(16), 3)])
+            m.fields.append(Field("tail_x", max(free), TArray(e, c, False)))
         # enforce size limit by dropping fields from the end
         while msg_nbits(m) > self.o.max_bits and m.fields:
-            m.fields.pop()
+            m.fields.pop(0 if m.fields[-1].name == "tail_x" and len(m.fields) > 1 else -1)
         return m
 
     corpus_queue: List[Schema] = []
@@ -531,19 +551,25 @@ class SchemaGen:
             m = MsgDef(self.fresh("Msg"), False)
             self.defs.append(m)
             tops.append(m)
-        for m in r.sample(tops, 2):
+        # widths of different C storage classes, either order (a cache keyed by the simple name hands the SECOND one the
+        # first one's type: harmless when the first is wider, truncating when it is narrower)
+        widths = list(r.choice([(2, 11), (3, 17), (6, 40), (12, 20), (8, 9), (1, 33)]))
+        r.shuffle(widths)
+        pair = sorted(r.sample(tops, 2), key=lambda m: self.defs.index(m))
+        same_cap, same_ext = r.choice([2, 3, 4]), self.o.allow_ext and r.random() < 0.4  # equal array types but for the element
+        for m, w in zip(pair, widths):
             if any(x.name in ("Status", "Sample") for x in m.nested):
                 continue
             used = {f.num for f in m.fields}
             free = [k for k in range(1, 256) if k not in used]
-            w = r.choice([1, 2, 3, 6, 9, 12, 17])
             en = EnumDef("Status", w, [("STATUS_VA", 0), ("STATUS_VB", (1 << w) - 1)], m)
             sm = MsgDef("Sample", self.o.allow_ext and r.random() < 0.4, parent=m)
             for i in range(r.randint(1, 3)):
                 sm.fields.append(Field(f"s{chr(97 + i)}_x", i + 1, self.scalar()))
             m.nested += [en, sm]
             m.fields.append(Field("tw_status", free[0], TRef(en)))
-            m.fields.append(Field("tw_samples", free[1], TArray(TRef(sm), r.choice([1, 2, 4]), self.o.allow_ext and r.random() < 0.4)))
+            m.fields.append(Field("tw_samples", free[1], TArray(TRef(sm), same_cap, same_ext)))
+            m.fields.append(Field("tw_states", free[2], TArray(TRef(en), same_cap, same_ext)))
             while msg_nbits(m) > self.o.max_bits and len(m.fields) > 2:
                 m.fields.pop(0)
 
